@@ -588,7 +588,15 @@ class AsyncFIFOBuffered(Elaboratable, FIFOInterface):
         m.submodules.consume_buffered_cdc = FFSynchronizer(r_consume_buffered, w_consume_buffered, o_domain=self._w_domain, stages=4)
         m.d.comb += self.w_level.eq(fifo.w_level + w_consume_buffered)
 
-        with m.If(self.r_en | ~self.r_rdy):
+        with m.If(fifo.r_rst):
+            # The write domain has been reset: the entry held in the output register (if any) is
+            # discarded together with the contents of the inner FIFO, whether or not it is being
+            # read, and the reset is reported on `r_rst`.
+            m.d[self._r_domain] += [
+                self.r_rdy.eq(0),
+                self.r_rst.eq(1),
+            ]
+        with m.Elif(self.r_en | ~self.r_rdy):
             m.d[self._r_domain] += [
                 self.r_data.eq(fifo.r_data),
                 self.r_rdy.eq(fifo.r_rdy),
